@@ -26,11 +26,13 @@ type Op struct {
 type Res struct {
 	Class string `json:"class"`
 	Cat   string `json:"cat"`
-	V     int    `json:"v"`   // returned element id (0 = none)
-	Vc    string `json:"vc"`  // class of the returned element
-	N     int    `json:"n"`   // Count() of the handle after the call
-	Seq   []int  `json:"seq"` // sequence results (pop, iterate, range)
-	Rid   int    `json:"rid"` // canonical root identifier of the handle
+	Found bool   `json:"found"` // maps: key was present
+	Kv    int    `json:"kv"`    // maps: id of the returned key (remove)
+	V     int    `json:"v"`     // returned element id (0 = none)
+	Vc    string `json:"vc"`    // class of the returned element
+	N     int    `json:"n"`     // Count() of the handle after the call
+	Seq   []int  `json:"seq"`   // sequence results (pop, iterate, range)
+	Rid   int    `json:"rid"`   // canonical root identifier of the handle
 }
 
 type RecCfg struct {
@@ -48,6 +50,7 @@ type Rec struct {
 	J     int       `json:"j"`
 	E     ElemSpec  `json:"e"`
 	K     ElemSpec  `json:"k"`
+	Kd    []int     `json:"kd"` // digest vector of the key (maps)
 	Ti    int       `json:"ti"`
 	Res   Res       `json:"res"`
 	Roots []RootObs `json:"roots"`
@@ -101,7 +104,12 @@ func (w *World) rec(t int, ev string, op Op, res Res) Rec {
 	if res.Seq == nil {
 		res.Seq = []int{}
 	}
-	return Rec{T: t, Ev: ev, H: op.H, I: op.I, J: op.J, E: op.E, K: op.K, Ti: op.Ti, Res: res, Roots: roots, St: st, Cfg: w.cfg()}
+	kd := []int{}
+	if h, ok := w.H[op.H]; ok && h.Kind == "M" && h.Dig != nil && op.K.ID != 0 {
+		v := h.Dig.Vec(op.K.ID)
+		kd = []int{int(v[0]), int(v[1]), int(v[2]), int(v[3])}
+	}
+	return Rec{T: t, Ev: ev, H: op.H, I: op.I, J: op.J, E: op.E, K: op.K, Kd: kd, Ti: op.Ti, Res: res, Roots: roots, St: st, Cfg: w.cfg()}
 }
 
 func resOf(err error) Res {
@@ -169,9 +177,10 @@ func (w *World) handle(name string) *Handle {
 	return h
 }
 
+// idx translates a model index: -(k+1) stands for 2^32 + k (TLC integers are 32-bit).
 func idx(i int) uint64 {
 	if i < 0 {
-		return 1 << 32
+		return (1 << 32) + uint64(-i-1)
 	}
 	return uint64(i)
 }
@@ -257,6 +266,86 @@ func (w *World) Exec(op Op) (string, Res) {
 		r.N = int(h.Arr.Count())
 		r.Rid = w.cid(h.Arr.SlabID())
 		return "ASetType", r
+	case "new_map":
+		dig := &TableDigesterBuilder{Table: w.DigTable, Default: w.DigDefault}
+		m, err := atree.NewMap(w.St, w.Addr, dig, testutils.NewSimpleTypeInfo(uint64(op.Ti)))
+		r := resOf(err)
+		if err == nil {
+			w.H[op.New] = &Handle{Name: op.New, Kind: "M", Map: m, Dig: dig}
+			w.Roots = append(w.Roots, op.New)
+			r.Rid = w.cid(m.SlabID())
+		}
+		return "NewMap", r
+	case "mset":
+		h := w.handle(op.H)
+		old, err := h.Map.Set(testutils.CompareValue, testutils.GetHashInput, mkValue(op.K), mkValue(op.E))
+		r := resOf(err)
+		if err == nil && old != nil {
+			r.Found = true
+			r.V, r.Vc = w.tokenOfStorable(old)
+			w.dispose(old)
+		}
+		r.N = int(h.Map.Count())
+		r.Rid = w.cid(h.Map.SlabID())
+		return "MSet", r
+	case "mget":
+		h := w.handle(op.H)
+		v, err := h.Map.Get(testutils.CompareValue, testutils.GetHashInput, mkValue(op.K))
+		r := resOf(err)
+		if err == nil {
+			a := w.absOfValue(v)
+			r.Found = true
+			r.V, r.Vc = a.V, a.C
+		}
+		r.N = int(h.Map.Count())
+		r.Rid = w.cid(h.Map.SlabID())
+		return "MGet", r
+	case "mhas":
+		h := w.handle(op.H)
+		ok, err := h.Map.Has(testutils.CompareValue, testutils.GetHashInput, mkValue(op.K))
+		r := resOf(err)
+		r.Found = ok
+		r.N = int(h.Map.Count())
+		r.Rid = w.cid(h.Map.SlabID())
+		return "MHas", r
+	case "mrem":
+		h := w.handle(op.H)
+		k, v, err := h.Map.Remove(testutils.CompareValue, testutils.GetHashInput, mkValue(op.K))
+		r := resOf(err)
+		if err == nil {
+			r.Found = true
+			r.Kv, _ = w.tokenOfStorable(k)
+			r.V, r.Vc = w.tokenOfStorable(v)
+			w.dispose(k)
+			w.dispose(v)
+		}
+		r.N = int(h.Map.Count())
+		r.Rid = w.cid(h.Map.SlabID())
+		return "MRemove", r
+	case "mpop":
+		h := w.handle(op.H)
+		var ks, vs []atree.Storable
+		err := h.Map.PopIterate(func(k, v atree.Storable) { ks = append(ks, k); vs = append(vs, v) })
+		r := resOf(err)
+		for i := range ks {
+			kid, _ := w.tokenOfStorable(ks[i])
+			vid, _ := w.tokenOfStorable(vs[i])
+			r.Seq = append(r.Seq, kid, vid)
+		}
+		for i := range ks {
+			w.dispose(ks[i])
+			w.dispose(vs[i])
+		}
+		r.N = int(h.Map.Count())
+		r.Rid = w.cid(h.Map.SlabID())
+		return "MPop", r
+	case "msettype":
+		h := w.handle(op.H)
+		err := h.Map.SetType(testutils.NewSimpleTypeInfo(uint64(op.Ti)))
+		r := resOf(err)
+		r.N = int(h.Map.Count())
+		r.Rid = w.cid(h.Map.SlabID())
+		return "MSetType", r
 	}
 	panic("unknown op " + op.Op)
 }
@@ -280,6 +369,18 @@ func parseTupleOp(raw json.RawMessage, handle string) Op {
 		return Op{Op: "apop", H: handle}
 	case "settype":
 		return Op{Op: "asettype", H: handle, Ti: num(1)}
+	case "mset": // k, ksz, vid, vsz
+		return Op{Op: "mset", H: handle, K: ElemSpec{ID: num(1), Sz: num(2)}, E: ElemSpec{ID: num(3), Sz: num(4)}}
+	case "mrem":
+		return Op{Op: "mrem", H: handle, K: ElemSpec{ID: num(1), Sz: num(2)}}
+	case "mget":
+		return Op{Op: "mget", H: handle, K: ElemSpec{ID: num(1), Sz: num(2)}}
+	case "mhas":
+		return Op{Op: "mhas", H: handle, K: ElemSpec{ID: num(1), Sz: num(2)}}
+	case "mpop":
+		return Op{Op: "mpop", H: handle}
+	case "msettype":
+		return Op{Op: "msettype", H: handle, Ti: num(1)}
 	}
 	panic(fmt.Sprintf("unknown tuple op %v", t))
 }
